@@ -54,6 +54,8 @@ enum Op {
     Clear,
     Size,
     Stats,
+    /// `AsyncCache::is_empty` (provided method of the trait; judged at the checkpoints)
+    IsEmpty,
     /// drop the instance and create a new one on the same directory (disk only)
     Reopen,
     /// sleep inside the runtime so that background tasks run / short TTLs pass
@@ -70,6 +72,26 @@ struct MemCfg {
     cleanup_ms: u64,
     /// sweep `get` over the universe after EVERY operation (limits judged on retrievable contents too)
     sweep_every_op: bool,
+    /// what the configuration says about the TTL of a plain `put` (overrides `default_ttl_none` unless `Unset`)
+    #[serde(default)]
+    default_ttl: DefTtl,
+    /// configure through the builder methods (`with_max_memory`, `with_default_ttl`) instead of the public fields
+    #[serde(default)]
+    via_builders: bool,
+}
+
+/// The cache's configured default TTL, i.e. the life time of a plain `put`.
+#[derive(Clone, Copy, Debug, Default, Serialize, Deserialize, PartialEq, Eq)]
+enum DefTtl {
+    /// leave what `MemoryCacheConfig::new()` / `DiskCacheConfig::new()` set (1 h / 24 h)
+    #[default]
+    Unset,
+    /// `default_ttl = None` (the caches fall back to 1 h / 24 h)
+    NoneSet,
+    /// 3600 s
+    Long,
+    /// zero: every plain `put` stores an entry whose time-to-live has already ended
+    Zero,
 }
 
 #[derive(Clone, Debug, Serialize, Deserialize)]
@@ -79,6 +101,13 @@ struct DiskCfg {
     background: bool,
     cleanup_ms: u64,
     max_files: usize,
+    #[serde(default)]
+    max_disk_bytes: Option<usize>,
+    #[serde(default)]
+    default_ttl: DefTtl,
+    /// configure through `with_max_disk_usage` / `with_default_ttl` instead of the public fields
+    #[serde(default)]
+    via_builders: bool,
 }
 
 #[derive(Clone, Debug, Serialize, Deserialize)]
@@ -93,6 +122,10 @@ struct History {
     target: Target,
     universe: usize,
     ops: Vec<Op>,
+    /// a limit of this configuration is 0, i.e. just outside "from 1 up": the constructor may refuse it
+    /// (what `validate` does); a cache that accepts it is held to the configured maxima like any other
+    #[serde(default)]
+    zero_limit_config: bool,
 }
 
 fn policy_of(name: &str) -> EvictionPolicy {
@@ -241,9 +274,20 @@ impl<'a> Runner<'a> {
                 let mut cfg = MemoryCacheConfig::new()
                     .with_max_entries(c.max_entries)
                     .with_eviction_policy(policy_of(&c.policy));
-                cfg.max_memory_bytes = c.max_memory;
+                match (c.via_builders, c.max_memory) {
+                    (true, Some(m)) => cfg = cfg.with_max_memory(m),
+                    _ => cfg.max_memory_bytes = c.max_memory,
+                }
                 if c.default_ttl_none {
                     cfg.default_ttl = None;
+                }
+                match (c.default_ttl, c.via_builders) {
+                    (DefTtl::Unset, _) => {}
+                    (DefTtl::NoneSet, _) => cfg.default_ttl = None,
+                    (DefTtl::Long, true) => cfg = cfg.with_default_ttl(Duration::from_secs(3600)),
+                    (DefTtl::Long, false) => cfg.default_ttl = Some(Duration::from_secs(3600)),
+                    (DefTtl::Zero, true) => cfg = cfg.with_default_ttl(Duration::ZERO),
+                    (DefTtl::Zero, false) => cfg.default_ttl = Some(Duration::ZERO),
                 }
                 if c.cleanup_task {
                     cfg.cleanup_interval = Duration::from_millis(c.cleanup_ms.max(1));
@@ -255,7 +299,18 @@ impl<'a> Runner<'a> {
             Target::Disk(c) => {
                 let dir = self.dir.as_ref().ok_or("no temp dir")?;
                 let mut cfg = DiskCacheConfig::new(dir.path().join("cache")).with_max_files(c.max_files);
-                cfg.max_disk_bytes = None;
+                match (c.via_builders, c.max_disk_bytes) {
+                    (true, Some(m)) => cfg = cfg.with_max_disk_usage(m),
+                    _ => cfg.max_disk_bytes = c.max_disk_bytes,
+                }
+                match (c.default_ttl, c.via_builders) {
+                    (DefTtl::Unset, _) => {}
+                    (DefTtl::NoneSet, _) => cfg.default_ttl = None,
+                    (DefTtl::Long, true) => cfg = cfg.with_default_ttl(Duration::from_secs(3600)),
+                    (DefTtl::Long, false) => cfg.default_ttl = Some(Duration::from_secs(3600)),
+                    (DefTtl::Zero, true) => cfg = cfg.with_default_ttl(Duration::ZERO),
+                    (DefTtl::Zero, false) => cfg.default_ttl = Some(Duration::ZERO),
+                }
                 cfg = cfg.with_subdirectories(c.subdir_levels > 0, c.subdir_levels);
                 if c.background {
                     cfg.cleanup_interval = Duration::from_millis(c.cleanup_ms.max(1));
@@ -298,6 +353,9 @@ impl<'a> Runner<'a> {
                     match e.life {
                         Life::Live => {
                             self.bump(&format!("{name}.get.hit_live_value"), 1);
+                            if is_disk && b.len() >= 16 * 1024 * 1024 {
+                                self.bump("disk.get.hit_live_value_of_16MiB_or_more(large-file read path)", 1);
+                            }
                             if is_disk && generation > e.put_gen {
                                 self.bump("disk.live_entry_served_by_new_instance", 1);
                             }
@@ -430,8 +488,10 @@ impl<'a> Runner<'a> {
         }
         let over_e: Vec<_> = entries.iter().filter(|(_, v)| *v > c.max_entries).collect();
         if !over_e.is_empty() {
+            // a limit of 0 that the constructor accepted is a different defect from an eviction that stops too early
+            let cond = if c.max_entries == 0 { "|max_entries=0-accepted" } else { "" };
             self.violate(
-                "C10|MemoryCache|entries-exceed-max_entries".to_string(),
+                format!("C10|MemoryCache|entries-exceed-max_entries{cond}"),
                 "after an operation the memory cache holds more entries than max_entries",
                 json!({"max_entries": c.max_entries, "measures": entries.iter().map(|(n, v)| json!({"measure": n, "value": v})).collect::<Vec<_>>()}),
             );
@@ -441,7 +501,13 @@ impl<'a> Runner<'a> {
             if !over_b.is_empty() {
                 // witness class: the operation that was just executed stored one value above the whole budget
                 let measured = bytes.iter().map(|(_, v)| *v).max().unwrap_or(0);
-                let witness = if just_put_len.is_some_and(|l| l > max && measured >= l) { "single-value-larger-than-limit" } else { "sum-of-values" };
+                let witness = if max == 0 {
+                    "max_memory_bytes=0-accepted"
+                } else if just_put_len.is_some_and(|l| l > max && measured >= l) {
+                    "single-value-larger-than-limit"
+                } else {
+                    "sum-of-values"
+                };
                 self.bump(&format!("memory.bytes_over_limit.{witness}"), 1);
                 self.violate(
                     format!("C10|MemoryCache|cached-bytes-exceed-max_memory_bytes|{witness}"),
@@ -469,6 +535,16 @@ impl<'a> Runner<'a> {
             ),
             Ok(_) => {}
             Err(e) => self.bump(&format!("{name}.size.err:{e}"), 1),
+        }
+        // is_empty() is the same reported figure seen through the trait's provided method
+        match self.rt.block_on(cache.api().is_empty()) {
+            Ok(empty) if empty != (n == 0) => self.violate(
+                format!("C10|{name}|is_empty()!=nothing-retrievable|{}", if empty { "reports-empty" } else { "reports-non-empty" }),
+                "is_empty() disagrees with whether anything was retrievable right before it",
+                json!({"is_empty()": empty, "retrievable_entries": n}),
+            ),
+            Ok(empty) => self.bump(&format!("{name}.is_empty.agrees.{empty}"), 1),
+            Err(e) => self.bump(&format!("{name}.is_empty.err:{e}"), 1),
         }
         match stats {
             Ok(st) => {
@@ -508,7 +584,16 @@ impl<'a> Runner<'a> {
                         Ttl::ShortMs(ms) => self.rt.block_on(cache.api().put_with_ttl(kk, val.clone(), Duration::from_millis(*ms))),
                     };
                     let after = Instant::now();
+                    // a plain `put` lives as long as the configured default TTL says: 1 h / 24 h, or not at all
+                    let default_ttl = match &self.h.target {
+                        Target::Memory(c) => c.default_ttl,
+                        Target::Disk(c) => c.default_ttl,
+                    };
                     let life = match ttl {
+                        Ttl::Default if default_ttl == DefTtl::Zero => {
+                            self.bump(&format!("{name}.op.put.default_ttl_configured_zero"), 1);
+                            Life::Dead
+                        }
                         Ttl::Default | Ttl::Long => Life::Live,
                         Ttl::Zero => Life::Dead,
                         Ttl::ShortMs(ms) => Life::Short { after, ttl_ms: *ms },
@@ -576,6 +661,10 @@ impl<'a> Runner<'a> {
                     self.bump(&format!("{name}.op.stats"), 1);
                     let _ = self.rt.block_on(cache.api().stats());
                 }
+                Op::IsEmpty => {
+                    self.bump(&format!("{name}.op.is_empty"), 1);
+                    let _ = self.rt.block_on(cache.api().is_empty());
+                }
                 Op::Reopen => {
                     self.bump("disk.op.reopen", 1);
                     drop(cache);
@@ -626,7 +715,7 @@ fn run_history(ctx: &Ctx, rt: &Runtime, h: &History) {
         None
     };
     let evicting_disk = match &h.target {
-        Target::Disk(c) => c.background && c.max_files < h.universe,
+        Target::Disk(c) => c.background && (c.max_files < h.universe || c.max_disk_bytes.is_some()),
         Target::Memory(_) => false,
     };
     let mut r = Runner {
@@ -645,6 +734,9 @@ fn run_history(ctx: &Ctx, rt: &Runtime, h: &History) {
     let hash = fnv64(serde_json::to_string(h).unwrap_or_default().as_bytes());
     match outcome {
         Ok(Ok(())) => {
+            if h.zero_limit_config {
+                ctx.obs("zero_limit_config.accepted_and_run_under_the_usual_oracle", 1);
+            }
             // non-trivial: key population larger than capacity, or byte budget below the bytes put,
             // or (disk) at least one drop-and-recreate
             let nontrivial = match &h.target {
@@ -660,14 +752,43 @@ fn run_history(ctx: &Ctx, rt: &Runtime, h: &History) {
                 ctx.eval();
             }
         }
+        Ok(Err(e)) if h.zero_limit_config => {
+            // refusing a zero limit is one of the two admissible answers (the other: accept it and keep to it)
+            ctx.eval();
+            ctx.obs("zero_limit_config.refused_by_constructor", 1);
+            ctx.obs(&format!("zero_limit_config.refused_by_constructor:{}", e.chars().take(90).collect::<String>()), 1);
+        }
         Ok(Err(e)) => ctx.inconclusive(&format!("harness could not construct the cache: {e}")),
         Err(p) => {
             let msg = vh::monitor::watchdog::panic_message(&p);
             ctx.eval();
+            // canonical class of the panic: the message with every number replaced (no lengths, indices or
+            // addresses), so that two different panics are two findings; the operation that was executing goes
+            // into the detail only (one defect in a shared helper panics in put, get and remove alike)
+            let op_kind = match h.ops.get(r.op_index) {
+                Some(Op::Put { .. }) => "put",
+                Some(Op::Get { .. }) => "get",
+                Some(Op::Contains { .. }) => "contains",
+                Some(Op::Remove { .. }) => "remove",
+                Some(Op::Clear) => "clear",
+                Some(Op::Size) => "size",
+                Some(Op::Stats) => "stats",
+                Some(Op::IsEmpty) => "is_empty",
+                Some(Op::Reopen) => "reopen",
+                Some(Op::Settle { .. }) => "settle",
+                None => "end",
+            };
+            let mut class = String::new();
+            for ch in msg.chars().take(80) {
+                let c = if ch.is_ascii_digit() { '#' } else if ch.is_ascii_alphanumeric() { ch.to_ascii_lowercase() } else { '-' };
+                if !((c == '-' || c == '#') && class.ends_with(c)) {
+                    class.push(c);
+                }
+            }
             ctx.violation(
-                &format!("C10|{}|panic", r.name),
+                &format!("C10|{}|panic|{}", r.name, class.trim_matches('-')),
                 "a cache operation panicked during a sequential history",
-                json!({"history": serde_json::to_value(h).unwrap_or_default(), "op_index": r.op_index, "panic": msg}),
+                json!({"history": serde_json::to_value(h).unwrap_or_default(), "op_index": r.op_index, "op_kind": op_kind, "panic": msg}),
             );
         }
     }
@@ -675,6 +796,24 @@ fn run_history(ctx: &Ctx, rt: &Runtime, h: &History) {
         ctx.obs(k, *v);
     }
     ctx.obs(&format!("histories.{}", if is_disk { "disk" } else { "memory" }), 1);
+    match &h.target {
+        Target::Memory(c) => {
+            ctx.obs(&format!("config.memory.default_ttl.{:?}", c.default_ttl), 1);
+            if c.via_builders {
+                ctx.obs("config.memory.through_builder_methods", 1);
+            }
+        }
+        Target::Disk(c) => {
+            ctx.obs(&format!("config.disk.default_ttl.{:?}", c.default_ttl), 1);
+            ctx.obs(&format!("config.disk.subdirectory_levels.{}", match c.subdir_levels { 0..=2 => c.subdir_levels.to_string(), 3..=8 => "3-8".to_string(), _ => "above-8".to_string() }), 1);
+            if c.via_builders {
+                ctx.obs("config.disk.through_builder_methods", 1);
+            }
+            if c.max_disk_bytes.is_some() {
+                ctx.obs(&format!("config.disk.max_disk_bytes_set.{}", if c.background { "with_cleanup_task" } else { "without_cleanup_task" }), 1);
+            }
+        }
+    }
     ctx.obs("operations.total", h.ops.len() as u64);
     for f in r.found.drain(..) {
         ctx.violation(&f.signature, &f.summary, f.detail);
@@ -743,8 +882,10 @@ fn gen_memory(rng: &mut Rng, idx: usize, tagbase: u64) -> History {
             Op::Remove { k }
         } else if r < 940 {
             Op::Clear
-        } else if r < 968 {
+        } else if r < 954 {
             Op::Size
+        } else if r < 968 {
+            Op::IsEmpty
         } else if r < 995 || !cleanup_task || settles >= 3 {
             Op::Stats
         } else {
@@ -763,18 +904,31 @@ fn gen_memory(rng: &mut Rng, idx: usize, tagbase: u64) -> History {
             policy: policy.to_string(),
             max_entries,
             max_memory,
-            default_ttl_none: rng.chance(1, 5),
+            default_ttl_none: false,
             cleanup_task,
             cleanup_ms: 5,
             sweep_every_op: rng.bool(),
+            default_ttl: match rng.below(10) {
+                0 | 1 => DefTtl::NoneSet,
+                2 => DefTtl::Zero,
+                3 | 4 => DefTtl::Long,
+                _ => DefTtl::Unset,
+            },
+            via_builders: rng.bool(),
         }),
         universe,
         ops,
+        zero_limit_config: false,
     }
 }
 
 fn gen_disk(rng: &mut Rng, idx: usize, tagbase: u64) -> History {
-    let subdir_levels = idx % 3;
+    // flat / 1 / 2 levels in rotation; now and then 3, 8 (one byte of the 64-bit key hash per level) and 10 (more levels than the hash has bytes)
+    let subdir_levels = match idx % 24 {
+        10 => 3,
+        23 => [8, 10][(idx / 24) % 2],
+        x => x % 3,
+    };
     let background = idx % 4 == 3;
     let universe = rng.urange(4, 24);
     let max_files = if background && rng.chance(1, 3) { (universe / 2).max(1) } else { 100_000 };
@@ -818,8 +972,10 @@ fn gen_disk(rng: &mut Rng, idx: usize, tagbase: u64) -> History {
             Op::Remove { k }
         } else if r < 712 {
             Op::Clear
-        } else if r < 745 {
+        } else if r < 735 {
             Op::Size
+        } else if r < 750 {
+            Op::IsEmpty
         } else if r < 780 {
             Op::Stats
         } else if r < 900 {
@@ -843,11 +999,21 @@ fn gen_disk(rng: &mut Rng, idx: usize, tagbase: u64) -> History {
     if background && short_settles == 0 {
         ops.push(Op::Settle { ms: 70 });
     }
+    // a byte budget for the cleanup task (the statement bounds only the memory cache; what is judged is that
+    // the books still equal the retrievable contents after the task evicted for it)
+    let max_disk_bytes = if background && rng.chance(1, 2) { Some([1usize, 600, 6000][rng.usize_below(3)]) } else { None };
+    let default_ttl = match rng.below(10) {
+        0 => DefTtl::NoneSet,
+        1 => DefTtl::Zero,
+        2 | 3 => DefTtl::Long,
+        _ => DefTtl::Unset,
+    };
     History {
         label: format!("disk#{idx}"),
-        target: Target::Disk(DiskCfg { subdir_levels, background, cleanup_ms: 20, max_files }),
+        target: Target::Disk(DiskCfg { subdir_levels, background, cleanup_ms: 20, max_files, max_disk_bytes, default_ttl, via_builders: rng.bool() }),
         universe,
         ops,
+        zero_limit_config: false,
     }
 }
 
@@ -862,11 +1028,13 @@ fn directed() -> Vec<History> {
         cleanup_task: false,
         cleanup_ms: 5,
         sweep_every_op: sweep,
+        default_ttl: DefTtl::Unset,
+        via_builders: false,
     };
     // 1. the design-time probe: byte budget 1000, entry budget 1000, one hundred 100-byte puts
     for (pi, policy) in ["Lru", "Lfu", "Fifo", "Random"].iter().enumerate() {
         let ops = (0..100).map(|i| Op::Put { k: i, len: 100, tag: 900_000 + (pi * 1000 + i) as u64, ttl: Ttl::Default }).collect();
-        v.push(History { label: format!("directed:100x100B-into-1000B/{policy}"), target: Target::Memory(mem(policy, 1000, Some(1000), pi % 2 == 0)), universe: 100, ops });
+        v.push(History { label: format!("directed:100x100B-into-1000B/{policy}"), target: Target::Memory(mem(policy, 1000, Some(1000), pi % 2 == 0)), universe: 100, ops, zero_limit_config: false });
     }
     // 2. one value larger than the whole byte budget, then a small one, then a replace by an oversized one
     let ops = vec![
@@ -878,7 +1046,7 @@ fn directed() -> Vec<History> {
         Op::Get { k: 1 },
         Op::Stats,
     ];
-    v.push(History { label: "directed:oversized-single-value".into(), target: Target::Memory(mem("Lru", 8, Some(64), true)), universe: 3, ops });
+    v.push(History { label: "directed:oversized-single-value".into(), target: Target::Memory(mem("Lru", 8, Some(64), true)), universe: 3, ops, zero_limit_config: false });
     // 3. replace with smaller/larger values and TTL-0 entries under a tight entry budget
     let mut ops = Vec::new();
     for i in 0..40u64 {
@@ -887,9 +1055,17 @@ fn directed() -> Vec<History> {
             ops.push(Op::Remove { k: ((i + 1) % 3) as usize });
         }
     }
-    v.push(History { label: "directed:replace-expire-remove-books".into(), target: Target::Memory(mem("Fifo", 2, Some(1000), false)), universe: 3, ops });
+    v.push(History { label: "directed:replace-expire-remove-books".into(), target: Target::Memory(mem("Fifo", 2, Some(1000), false)), universe: 3, ops, zero_limit_config: false });
     // 4. disk: expiry and removal across instances
-    let disk = |levels: usize, background: bool| DiskCfg { subdir_levels: levels, background, cleanup_ms: 20, max_files: 100_000 };
+    let disk = |levels: usize, background: bool| DiskCfg {
+        subdir_levels: levels,
+        background,
+        cleanup_ms: 20,
+        max_files: 100_000,
+        max_disk_bytes: None,
+        default_ttl: DefTtl::Unset,
+        via_builders: false,
+    };
     for levels in [0usize, 2] {
         let ops = vec![
             Op::Put { k: 0, len: 40, tag: 930_001, ttl: Ttl::Long },
@@ -906,7 +1082,7 @@ fn directed() -> Vec<History> {
             Op::Size,
             Op::Stats,
         ];
-        v.push(History { label: format!("directed:disk-ttl-and-remove-across-instances/levels={levels}"), target: Target::Disk(disk(levels, false)), universe: 5, ops });
+        v.push(History { label: format!("directed:disk-ttl-and-remove-across-instances/levels={levels}"), target: Target::Disk(disk(levels, false)), universe: 5, ops, zero_limit_config: false });
     }
     // 5. disk with background cleanup: expired entries are purged by the task, books must follow
     let ops = vec![
@@ -918,7 +1094,84 @@ fn directed() -> Vec<History> {
         Op::Stats,
         Op::Get { k: 0 },
     ];
-    v.push(History { label: "directed:disk-background-cleanup-books".into(), target: Target::Disk(disk(0, true)), universe: 4, ops });
+    v.push(History { label: "directed:disk-background-cleanup-books".into(), target: Target::Disk(disk(0, true)), universe: 4, ops, zero_limit_config: false });
+    // 6. the cache's own default TTL decides how long a plain `put` lives: configured as zero (through the
+    //    builder and through the field) nothing put that way may be served, by this instance or the next
+    for (bi, via_builders) in [true, false].into_iter().enumerate() {
+        let t = 950_000 + 100 * bi as u64;
+        let ops = vec![
+            Op::Put { k: 0, len: 30, tag: t + 1, ttl: Ttl::Default },
+            Op::Get { k: 0 },
+            Op::Put { k: 1, len: 31, tag: t + 2, ttl: Ttl::Long },
+            Op::Put { k: 1, len: 32, tag: t + 3, ttl: Ttl::Default },
+            Op::Get { k: 1 },
+            Op::IsEmpty,
+            Op::Put { k: 2, len: 33, tag: t + 4, ttl: Ttl::Long },
+            Op::Get { k: 2 },
+            Op::Stats,
+        ];
+        let mut m = mem("Lru", 8, Some(1000), true);
+        m.default_ttl = DefTtl::Zero;
+        m.via_builders = via_builders;
+        v.push(History { label: format!("directed:memory-default-ttl-zero/builders={via_builders}"), target: Target::Memory(m), universe: 3, ops: ops.clone(), zero_limit_config: false });
+        let mut d = disk(1, false);
+        d.default_ttl = DefTtl::Zero;
+        d.via_builders = via_builders;
+        let mut ops = ops;
+        ops.push(Op::Reopen);
+        ops.push(Op::Get { k: 0 });
+        ops.push(Op::Get { k: 2 });
+        v.push(History { label: format!("directed:disk-default-ttl-zero/builders={via_builders}"), target: Target::Disk(d), universe: 3, ops, zero_limit_config: false });
+    }
+    // 7. disk: a value of 16 MiB and more is read back through the large-file path, by this instance and the next
+    let big = 16 * 1024 * 1024;
+    let ops = vec![
+        Op::Put { k: 0, len: big - 1, tag: 960_001, ttl: Ttl::Long },
+        Op::Put { k: 1, len: big, tag: 960_002, ttl: Ttl::Default },
+        Op::Put { k: 2, len: big + 3, tag: 960_003, ttl: Ttl::Long },
+        Op::Get { k: 0 },
+        Op::Get { k: 1 },
+        Op::Get { k: 2 },
+        Op::Stats,
+        Op::Put { k: 1, len: big + 1, tag: 960_004, ttl: Ttl::Long },
+        Op::Put { k: 2, len: big + 5, tag: 960_005, ttl: Ttl::Zero },
+        Op::Reopen,
+        Op::Get { k: 1 },
+        Op::Get { k: 2 },
+    ];
+    v.push(History { label: "directed:disk-values-of-16MiB-and-more".into(), target: Target::Disk(disk(0, false)), universe: 3, ops, zero_limit_config: false });
+    // 8. disk: more sub-directory levels than the 64-bit key hash has bytes
+    for levels in [8usize, 9, 12] {
+        let ops = vec![
+            Op::Put { k: 0, len: 40, tag: 970_001, ttl: Ttl::Long },
+            Op::Put { k: 1, len: 50, tag: 970_002, ttl: Ttl::Default },
+            Op::Get { k: 0 },
+            Op::Put { k: 0, len: 41, tag: 970_003, ttl: Ttl::Long },
+            Op::Remove { k: 1 },
+            Op::Reopen,
+            Op::Get { k: 0 },
+            Op::Get { k: 1 },
+            Op::Clear,
+            Op::Get { k: 0 },
+        ];
+        v.push(History { label: format!("directed:disk-deep-subdirectories/levels={levels}"), target: Target::Disk(disk(levels, false)), universe: 3, ops, zero_limit_config: false });
+    }
+    // 9. limits of 0 (just outside "from 1 up"): refused by the constructor, or accepted and then kept
+    for (label, max_entries, max_memory) in [("max_entries=0", 0usize, None), ("max_memory_bytes=0", 4usize, Some(0usize)), ("max_entries=0,max_memory_bytes=0", 0, Some(0))] {
+        for policy in ["Lru", "Fifo"] {
+            let ops = vec![
+                Op::Put { k: 0, len: 0, tag: 980_001, ttl: Ttl::Default },
+                Op::Put { k: 1, len: 1, tag: 980_002, ttl: Ttl::Long },
+                Op::Get { k: 1 },
+                Op::Put { k: 2, len: 20, tag: 980_003, ttl: Ttl::Default },
+                Op::Put { k: 1, len: 2, tag: 980_004, ttl: Ttl::Default },
+                Op::Size,
+                Op::IsEmpty,
+                Op::Stats,
+            ];
+            v.push(History { label: format!("directed:zero-limit-config/{label}/{policy}"), target: Target::Memory(mem(policy, max_entries, max_memory, true)), universe: 3, ops, zero_limit_config: true });
+        }
+    }
     v
 }
 
@@ -1029,11 +1282,27 @@ fn main() {
         ("DiskCache.checkpoints", "no disk checkpoint was executed"),
         ("disk.op.reopen", "no drop-and-recreate was executed"),
         ("disk.live_entry_served_by_new_instance", "no live entry was ever read back through a new disk-cache instance"),
+        ("MemoryCache.op.put.default_ttl_configured_zero", "no plain put ran on a memory cache configured with a zero default TTL"),
+        ("DiskCache.op.put.default_ttl_configured_zero", "no plain put ran on a disk cache configured with a zero default TTL"),
+        ("config.memory.through_builder_methods", "no memory cache was configured through the builder methods"),
+        ("config.disk.through_builder_methods", "no disk cache was configured through the builder methods"),
+        ("config.disk.max_disk_bytes_set.with_cleanup_task", "no disk history ran the cleanup task with a byte budget"),
+        ("config.disk.subdirectory_levels.3-8", "no disk history used 3-8 sub-directory levels"),
+        ("config.disk.subdirectory_levels.above-8", "no disk history used more than 8 sub-directory levels"),
+        ("disk.get.hit_live_value_of_16MiB_or_more(large-file read path)", "no value of 16 MiB or more was read back from the disk cache"),
     ];
     for (k, why) in need {
         if ctx.get_obs(k) == 0 {
             ctx.inconclusive(why);
         }
+    }
+    for name in ["MemoryCache", "DiskCache"] {
+        if ctx.get_obs(&format!("{name}.is_empty.agrees.true")) == 0 || ctx.get_obs(&format!("{name}.is_empty.agrees.false")) == 0 {
+            ctx.inconclusive(&format!("is_empty() of {name} was not judged on both an empty and a non-empty cache"));
+        }
+    }
+    if ctx.get_obs("zero_limit_config.accepted_and_run_under_the_usual_oracle") + ctx.get_obs("zero_limit_config.refused_by_constructor") == 0 {
+        ctx.inconclusive("no zero-limit configuration was tried");
     }
     let hits = ctx.get_obs("MemoryCache.get.hit_live_value");
     let misses = ctx.get_obs("MemoryCache.get.miss_on_live_key");
